@@ -130,6 +130,9 @@ impl Poly1305 {
             let tmp = self.buffer;
             self.block(&tmp);
         }
+        // also mark a message made of whole blocks as finalized, so that a second result
+        // doesn't run the final reduction again and input after result is refused
+        self.finalized = true;
 
         // fully carry h
         let mut h0 = self.h[0];
